@@ -41,6 +41,9 @@ func serviceRandom(fl *drv.Flags, rng *rand.Rand, w *chain.TraceWriter) {
 	if btc {
 		svcs = append(svcs, "oracle-price")
 	}
+	// f36=1: module-service calls also while owner tallies exist (they then credit the
+	// empty owner with the sum of all owner tallies: finding F36)
+	f36 := fl.CfgInt("f36", 0) == 1
 	setPricing := func(ev chain.M, now int64) {
 		ev["price"] = int64(rng.Intn(9))
 		if rng.Intn(14) == 0 || (btc && rng.Intn(3) == 0) {
@@ -198,6 +201,9 @@ func serviceRandom(fl *drv.Flags, rng *rand.Rand, w *chain.TraceWriter) {
 				}
 				if rng.Intn(15) == 0 {
 					ev["svc"] = "nosuch"
+				}
+				if name == "Call" && ev["svc"] == "oracle-price" && !f36 && len(st["ownerEarned"].(chain.M)) > 0 {
+					ev["svc"] = defs[0]
 				}
 				cand := provs
 				if row, ok := bind[ev["svc"].(string)].(chain.M); ok && len(row) > 0 && rng.Intn(5) > 0 {
